@@ -93,3 +93,7 @@ def run(chk):
     run_kernels(chk, items)
     L1m.settle(chk, [o for o in chk.obs if o.name.startswith("Point.BytesMontgomery")], lambda: mont_battery(chk.seed), "Point.BytesMontgomery")
     chk.samples = [o.j() for o in chk.obs if o.name.startswith("Point.BytesMontgomery")][:5]
+
+
+def safety_net(chk):
+    return mont_battery(chk.seed)
